@@ -8,7 +8,7 @@ def flags : Flags :=
   { polyTrueChecksZ := true,
     polyDistZ := .selfZ,
     polyAABBZ := .selfZ,
-    polyContainsRegionChecksZ := false,
+    polyContainsRegionChecksZ := true,
     discContainsChecksZ := true,
     discDistPlane := .selfZ,
     discAABBZ := .selfZ,
@@ -21,7 +21,7 @@ def clsTable : Kind → Op → Option (List Clause)
   | .all, .intersect => some [⟨[], .run .retOther⟩]
   | .all, .intersects => some [⟨[], .run .otherNotEmpty⟩]
   | .all, .union => some [⟨[], .run .retSelf⟩]
-  | .disc, .intersects => some [⟨[.isKind .disc], .run .discIntersects⟩, ⟨[], .super⟩]
+  | .disc, .intersects => some [⟨[.isKind .disc, .zNe], .run .retFalse⟩, ⟨[.isKind .disc], .run .discIntersects⟩, ⟨[], .super⟩]
   | .empty, .difference => some [⟨[], .run .retSelf⟩]
   | .empty, .intersect => some [⟨[], .run .retSelf⟩]
   | .empty, .intersects => some [⟨[], .run .retFalse⟩]
@@ -29,15 +29,15 @@ def clsTable : Kind → Op → Option (List Clause)
   | .foot, .difference => some [⟨[.isKind .foot], .run .footSub⟩, ⟨[], .super⟩]
   | .foot, .intersect => some [⟨[.isKind .foot], .run .footAnd⟩, ⟨[.isKind .poly], .liftSelf .otherZ⟩, ⟨[.isKind .path], .run .footPathClip⟩, ⟨[], .super⟩]
   | .foot, .union => some [⟨[.isKind .foot], .run .footOr⟩, ⟨[], .super⟩]
-  | .line, .difference => some [⟨[.hasPoly], .run .lineSub⟩, ⟨[], .super⟩]
+  | .line, .difference => some [⟨[.hasPoly, .isKind .poly, .otherElev], .run .retSelf⟩, ⟨[.hasPoly], .run .lineSub⟩, ⟨[], .super⟩]
   | .line, .intersect => some [⟨[.hasPoly, .isKind .poly, .otherElev], .super⟩, ⟨[.hasPoly], .run .lineAnd⟩, ⟨[], .super⟩]
-  | .line, .intersects => some [⟨[.hasPoly], .run .lineIntersects⟩, ⟨[], .super⟩]
-  | .poly, .difference => some [⟨[.lzy], .super⟩, ⟨[.isKind .poly, .zNe], .run .retSelf⟩, ⟨[.hasPoly], .run (.polySub true)⟩, ⟨[], .super⟩]
-  | .poly, .intersect => some [⟨[.lzy], .super⟩, ⟨[.isKind .poly, .zNe], .run .retNowhere⟩, ⟨[.hasPoly], .run (.polyAnd true)⟩, ⟨[], .super⟩]
-  | .poly, .intersects => some [⟨[.isKind .poly, .zNe], .run .retFalse⟩, ⟨[.hasPoly], .run .polyIntersects⟩, ⟨[], .super⟩]
-  | .poly, .union => some [⟨[.lzy], .superFresh⟩, ⟨[.isKind .poly, .zNe], .super⟩, ⟨[.hasPoly], .run (.polyOr true)⟩, ⟨[], .super⟩]
+  | .line, .intersects => some [⟨[.hasPoly, .isKind .poly, .otherElev], .run .retFalse⟩, ⟨[.hasPoly], .run .lineIntersects⟩, ⟨[], .super⟩]
+  | .poly, .difference => some [⟨[.lzy], .super⟩, ⟨[.isKind .poly, .zNe], .run .retSelf⟩, ⟨[.isKind .line, .selfElev], .run .retSelf⟩, ⟨[.hasPoly], .run (.polySub true)⟩, ⟨[], .super⟩]
+  | .poly, .intersect => some [⟨[.lzy], .super⟩, ⟨[.isKind .poly, .zNe], .run .retNowhere⟩, ⟨[.isKind .line, .selfElev], .run .retNowhere⟩, ⟨[.hasPoly], .run (.polyAnd true)⟩, ⟨[], .super⟩]
+  | .poly, .intersects => some [⟨[.isKind .poly, .zNe], .run .retFalse⟩, ⟨[.isKind .line, .selfElev], .run .retFalse⟩, ⟨[.hasPoly], .run .polyIntersects⟩, ⟨[], .super⟩]
+  | .poly, .union => some [⟨[.lzy], .super⟩, ⟨[.notKind .poly], .super⟩, ⟨[.isKind .poly, .zNe], .super⟩, ⟨[.hasPoly], .run (.polyOr true)⟩, ⟨[], .super⟩]
   | .pts, .intersect => some [⟨[.isKind .pts], .run .ptsFilter⟩, ⟨[.notTried], .retryFresh⟩, ⟨[], .run .ptsSampler⟩]
-  | .pts, .intersects => some [⟨[], .run .ptsAny⟩]
+  | .pts, .intersects => some [⟨[], .run .ptsAnyTrue⟩]
   | .surf, .intersects => some [⟨[.isKind .surf], .run .surfSurfIntersects⟩, ⟨[.isKind .foot], .run .surfFootIntersects⟩, ⟨[], .super⟩]
   | .vol, .difference => some [⟨[.lzy], .super⟩, ⟨[.isKind .vol], .run .volSub⟩, ⟨[.isKind .foot], .run .volFootSub⟩, ⟨[], .super⟩]
   | .vol, .intersect => some [⟨[.lzy], .super⟩, ⟨[.isKind .vol], .run .volAnd⟩, ⟨[.isKind .foot], .run .volFootAnd⟩, ⟨[.isKind .poly], .run (.volSlice .otherZ .otherZ)⟩, ⟨[.isKind .path], .run .volPathClip⟩, ⟨[.isKind .line], .run .volLineClip⟩, ⟨[], .super⟩]
